@@ -1,7 +1,7 @@
 (** Prop_C07.v -- C07: a nameplate lives exactly as long as someone holds it.
     Statements quoted by type from NpFactsA.v / NpFactsB.v (printed by [Check]). *)
 From MW Require Import Base Store Monad Usage Server Websocket Service Findings Inv Obs
-     ProtoFacts StepFacts SweepFacts NpFactsA NpFactsB Inst_Params CrashLife.
+     ProtoFacts StepFacts SweepFacts NpFactsA NpFactsB Inst_Params CrashLife RunLifts.
 Local Open Scope list_scope.
 
 (** a side's claim on a nameplate is ended by NOTHING but its own release of that
@@ -60,6 +60,24 @@ Example C07_crashed_claim_survives : ltac:(let t := type of crashed_claim_surviv
 Proof. exact crashed_claim_survives. Qed.
 Example C07_crash_inside_own_release_ends_claim : ltac:(let t := type of crash_inside_own_release_ends_claim in exact t).
 Proof. exact crash_inside_own_release_ends_claim. Qed.
+
+
+(** ** run level (RunLifts.v): over every history, a holder stays a holder -- and the nameplate stays listed and
+    bound to the same row -- until the event that ends the claim: the holder's own release (completed or cut
+    short by a crash) or the deletion of the nameplate's mailbox *)
+Theorem C07_holder_stable_run : ltac:(let t := type of holder_stable_run in exact t).
+Proof. exact holder_stable_run. Qed.
+Check C07_holder_stable_run.
+Print Assumptions C07_holder_stable_run.
+
+Theorem C07_listed_and_bound_while_held : ltac:(let t := type of listed_and_bound_while_held in exact t).
+Proof. exact listed_and_bound_while_held. Qed.
+Check C07_listed_and_bound_while_held.
+Print Assumptions C07_listed_and_bound_while_held.
+
+Theorem C07_listed_while_held : ltac:(let t := type of listed_while_held in exact t).
+Proof. exact listed_while_held. Qed.
+Print Assumptions C07_listed_while_held.
 
 
 Example C07_nonvacuous :
